@@ -183,6 +183,14 @@ class C14(Prop):
                 ops.append(op)
                 continue
             op = {"op": "req", "file": f, "adv": adv, "alias": t.draw(3), "asgi": t.draw(2), "inm": "none", "ims": False, "j": None}
+            if t.draw(8) == 0:
+                # ASGI only: an earlier request to the same file is still in flight (slow executor / slow client) when the
+                # file is modified; the judged request is issued after the modification has completed
+                mk = t.choice(["rewrite_other_size", "rewrite_same_size", "touch"])
+                op["overlap"] = {"op": mk, "file": f, "adv": 0}
+                if mk == "rewrite_other_size":
+                    others = [s for s in SIZES if s != cur[f]]
+                    op["overlap"]["size"] = cur[f] = t.choice(others)
             if nreq[f]:
                 op["inm"] = t.weighted(INM_FORMS)
                 op["ims"] = t.draw(2) == 1 and op["inm"] != "star"
@@ -254,7 +262,11 @@ class C14(Prop):
                     ctx.sch("clock", now - BASE_MS)
                 f = files[op["file"]]
                 if op["op"] == "req":
-                    self._request(plan, ctx, apps, f, op, k, now, entries[f.idx], hist)
+                    extra = self._request(plan, ctx, apps, f, op, k, now, entries[f.idx], hist, fs)
+                    if extra:
+                        now += extra
+                        total_adv += extra
+                        fs.now = now / 1000.0
                 else:
                     self._modify(ctx, fs, f, op, now, hist)
         finally:
@@ -317,7 +329,12 @@ class C14(Prop):
             members = [junk[0], own, junk[1]]
         return op["sep"].join(members), "list(%s,%s)" % (op["pos"], op["own"])
 
-    def _request(self, plan, ctx, apps, f, op, k, now, held, hist):
+    def _request(self, plan, ctx, apps, f, op, k, now, held, hist, fs=None):
+        self._extra_ms = 0
+        self._request_inner(plan, ctx, apps, f, op, k, now, held, hist, fs)
+        return self._extra_ms
+
+    def _request_inner(self, plan, ctx, apps, f, op, k, now, held, hist, fs):
         iface = ("asgi" if op["asgi"] else "wsgi") if plan["iface"] == "mixed" else plan["iface"]
         surface = "%s.%s" % (iface, plan["app"])
         urls = FILES[f.idx][1] + (FILES[f.idx][2] if plan["app"] == "Pages" else [])
@@ -348,8 +365,25 @@ class C14(Prop):
         req = AbstractRequest("GET", url, headers=headers, body=b"")
         ctx.sch("req", k, iface, url, tuple(headers), now - BASE_MS)
         ctx.probe(iface + "_request")
+        extra_ms = 0
         if iface == "wsgi":
             status, hdrs, body, exc = self._wsgi(ctx, apps[iface], req)
+        elif op.get("overlap") and fs is not None:
+            ctx.probe("overlapping_earlier_request")
+            ctx.fault("modification_while_a_request_is_in_flight")
+            state = {"now": now}
+
+            def mid():
+                state["now"] += 100
+                fs.now = state["now"] / 1000.0
+                self._modify(ctx, fs, f, op["overlap"], state["now"], hist)
+                state["now"] += 50
+                fs.now = state["now"] / 1000.0
+
+            early = AbstractRequest("GET", url, headers=[], body=b"")
+            status, hdrs, body, exc = self._asgi(ctx, apps[iface], req, plan["zerocopy"], surface, overlap=(early, mid))
+            self._extra_ms = state["now"] - now
+            now = state["now"]
         else:
             status, hdrs, body, exc = self._asgi(ctx, apps[iface], req, plan["zerocopy"], surface)
         etag = lm = None
@@ -485,8 +519,24 @@ class C14(Prop):
         return peer.status, peer.header_list(), peer.body, (self._excname(exc) if exc is not None else None)
 
     # ======================= ASGI =======================
-    def _asgi(self, ctx, app, req, zerocopy, surface):
+    def _asgi(self, ctx, app, req, zerocopy, surface, overlap=None):
         async def scenario(loop):
+            early_task = None
+            if overlap is not None:
+                early_req, mid = overlap
+                epeer = AsgiHttpPeer(loop, ctx, ctx.sched, early_req, zerocopy=False, send_lats=(0.0, 0.2, 1.0), surface="asgi-early")
+
+                async def early():
+                    try:
+                        await app(epeer.scope, epeer.receive, epeer.send)
+                    except BaseException as e:  # noqa: the in-flight request itself is not judged
+                        if isinstance(e, (asyncio.CancelledError, SimDeadlock, SimTimeLimit, SimStepLimit)):
+                            raise
+
+                early_task = loop.create_task(early(), name="early")
+                await asyncio.sleep(0.1)
+                mid()                       # the modification completes here (model and file system)
+                await asyncio.sleep(0.05)
             peer = AsgiHttpPeer(loop, ctx, ctx.sched, req, zerocopy=zerocopy, send_lats=SEND_LATS, surface="asgi")
             exc = None
             try:
@@ -495,6 +545,10 @@ class C14(Prop):
                 if isinstance(e, (asyncio.CancelledError, SimDeadlock, SimTimeLimit, SimStepLimit)):
                     raise
                 exc = e
+            if early_task is not None:
+                await asyncio.wait([early_task], timeout=300.0)
+                if not early_task.done():
+                    early_task.cancel()
             return peer.status, peer.header_list(), peer.body, (self._excname(exc) if exc is not None else None), peer.complete
 
         try:
